@@ -18,6 +18,7 @@ TEXT = {
  "C11": ("Disconnect: L0 monitor C11 (no disconnect error while a handle of the other side surely existed during the whole call) plus L1 validation of histories with clone/drop of both flavours interleaved with blocked, buffered and in-flight operations.", "6 C11"),
  "C12": ("Handle counts: L0 monitor C12 plus L1 validation (exact sender_count/receiver_count/is_closed results under clone / clone_sync / clone_async / to_* / as_* / drop / close sequences and interleavings).", "6 C12"),
  "C13": ("Timed operations under a virtual clock advanced at arbitrary hook points: L0 monitor C13 (timeout never before the deadline, only the three outcome classes) plus L1 validation (all-or-nothing, value dropped once / handed back, nothing left in the waiting list) and stuck detection (a deadline that passed must be reported).", "6 C13"),
+ "C18": ("The reference model is L1 (KanalAtomic.tla); TLC explores its single-process graph (MC_KanalAtomic_1p) and every single-thread call sequence up to the length bound over the full 58-call alphabet (both flavours, sends, receives, try_, zero-duration timed calls, single polls of futures and stream, clone/convert/drop, close, drain with different vectors, all observers) x capacities {0,1,2,unbounded} is executed on the real code and validated call by call against L1 (deterministic: any differing result or undocumented panic is rejected).", "6 C18"),
  "C19": ("drain_into: L1 validation of every drain result in real histories (vector = previous contents + buffer + blocked/pending senders oldest first, exact count, senders released with success, closed => nothing taken).", "6 C19"),
 }
 NOTE = "Bounded: small programs (<=4 processes, <=5 calls each), capacities {0,1,2,3,unbounded}; schedules sampled by a seeded controlled scheduler (all interleavings only in the TLC part); SC interleavings at hook granularity; trusted: TLC, the shim, the harness."
